@@ -80,7 +80,8 @@ for _p, _t in {
     "C11": "Unbounded (any number of bins): h[i] (edges and content of that bin) and h[a:b] (the selected bins with contents and errors; what is cut off goes to underflow / overflow so "
            "nothing is lost -- sum-split and sum-shift lemmas proved by induction per run; source untouched). ",
     "C13": "Unbounded: dtype promotion / consistency clauses of __imul__, __itruediv__, __iadd__, fill for any number of bins. ",
-    "C16": "Unbounded: densities * widths == frequencies, widths > 0, centres for any number of bins. ",
+    "C16": "Unbounded (any number of bins): densities * widths == frequencies, widths > 0, centres, bin sizes, left / right edges, min / max edge, total width as the sum of the widths, "
+           "total, cumulative frequencies as running sums ending at total and accumulated in numpy's default accumulator type. ",
 }.items():
     CHECKS[_p]["category"] = "proof"
     CHECKS[_p]["technique"] = "contract-based deductive verification: VCs from the real AST, z3 (arrays of symbolic extent as z3 array terms, quantified clauses); remaining array code bounded"
